@@ -59,6 +59,23 @@ static void build_lists(void)
     }
 }
 
+/* far spaces: the 1..k-stop quarter-grid lists plus a few with closely spaced stops (sharp edges) */
+static stoplist *FARLISTS; static int NFAR_GRID, NFAR;
+static void build_far_lists(int ngrid)
+{
+    static const stoplist SHARP[] = {
+        { 4, { 0, 0x8000 - 0x400, 0x8000, 0x10000 }, { 0, 0, 1, 1 } },   /* stripes with a 1/64-wide edge */
+        { 2, { 0, 0x400 }, { 0, 1 } },                                   /* 1/64 ramp, then wrap-around ramp back */
+        { 2, { 0x8000 - 0x100, 0x8000 }, { 2, 0 } },                     /* 1/256-wide edge */
+        { 3, { 0, 0x1000, 0x10000 }, { 1, 0, 1 } },                      /* 1/16 */
+    };
+    int nsharp = (int)(sizeof SHARP / sizeof SHARP[0]);
+    FARLISTS = malloc(sizeof(stoplist) * (ngrid + nsharp));
+    memcpy(FARLISTS, LISTS, sizeof(stoplist) * ngrid);
+    memcpy(FARLISTS + ngrid, SHARP, sizeof SHARP);
+    NFAR_GRID = ngrid; NFAR = ngrid + nsharp;
+}
+
 /* safety stop lists: unsorted, out of range, extreme */
 typedef struct { int n; int32_t x[5]; } rawlist;
 static const rawlist SAFE_LISTS[] = {
@@ -154,7 +171,7 @@ static const char *REPNAME[4] = { "none", "normal", "pad", "reflect" }; /* index
 /* origins (src_x, src_y of the composite request = gradient coordinate of destination pixel 0,0) */
 static const int ORG[2][2] = { { 0, 0 }, { -3, 1 } };
 /* far origins: the same gradients drawn thousands of pixels (= thousands of periods) away from p1 / c1 */
-static const int ORG_FAR[6][2] = { { 128, 1 }, { 512, 1 }, { 2048, 1 }, { 8192, 1 }, { 16384, 1 }, { -8192, 1 } };
+static const int ORG_FAR[6][2] = { { 128, 1 }, { 512, 1 }, { 2048, 1 }, { 8192, 1 }, { 12000, 1 }, { -8192, 1 } }; /* x2 stays inside 16.16 */
 /* far geometries: short periods */
 static const double FAR_LIN[4][6] = { { 3, 1, 3.5, 1 }, { 0.5, 0.5, 4.5, 0.5 }, { 1, 3, 6, 2.5 }, { 3.5, 1, 3, 1 } };
 static const double FAR_RAD[4][6] = { { 4, 2, 0, 4, 2, 0.5 }, { 2, 2, 1, 5, 2, 1 }, { 3, 2, 1, 4, 2, 2 }, { 4, 2, 0.25, 4.5, 2, 0.5 } };
@@ -173,6 +190,7 @@ typedef struct {
     int tr;                 /* transform id */
     int ox, oy;
     int far;                /* drawn from a far origin (separate spaces, separate key for periodic repeats) */
+    int listid;
 } request;
 
 static void req_str(const request *q, char *buf, size_t sz)
@@ -317,9 +335,10 @@ static void check_colour(const request *q)
                 if (q->far && (q->repeat == PIXMAN_REPEAT_NORMAL || q->repeat == PIXMAN_REPEAT_REFLECT)) {
                     /* many periods away from the origin: one key for both pipelines and all geometries */
                     snprintf(key, sizeof key, "c13-periodic-repeat-far-t-precision");
-#ifdef C13_PROBE
-                    snprintf(key, sizeof key, "far-%s-x%d-%s", KNAME[q->kind], q->ox, TNAME[q->tr]);
-#endif
+                    /* left_x of the shifted interval equals INT32_MIN for t in [-32768, -32767): distinct defect */
+                    for (int i = 0; i < a.nh; i++)
+                        if (a.t[i] >= -32768.0L - C13_D && a.t[i] < -32767.0L)
+                            snprintf(key, sizeof key, "c13-periodic-repeat-t-minus-32768-sentinel-confusion");
                 }
                 if (!okn)
                     vf_violation(key, "%s: pixel (%d,%d) narrow a8r8g8b8 got %08x (a=%d r=%d g=%d b=%d, premultiplied), accepted: %s",
@@ -406,7 +425,8 @@ static void colour_case(uint64_t idx, void *vctx)
     }
     q.tr = c->trs[d[1]];
     q.repeat = REPS[d[2]];
-    const stoplist *L = &LISTS[d[4]];
+    const stoplist *L = c->safety == 2 ? &FARLISTS[d[4]] : &LISTS[d[4]];
+    q.listid = d[4];
     q.nstops = L->n;
     for (int i = 0; i < L->n; i++) {
         q.stops[i].x = L->x[i];
@@ -532,16 +552,20 @@ int main(int argc, char **argv)
     run_safety("safety-conical", K_CONICAL, N_CCEN * N_CANG_ALL + 4, 9, TR_SAFETY);
     vf_space_run("safety-zero-stops", 6, refuse_case, NULL);
     /* colour claim many periods away from the gradient's origin (last: a genuine finding lives here) */
-    run_far("colour-far-linear", K_LINEAR, th ? NLISTS[3] : NLISTS[2]);
-    run_far("colour-far-radial", K_RADIAL, th ? NLISTS[3] : NLISTS[2]);
+    build_far_lists(th ? NLISTS[3] : NLISTS[2]);
+    run_far("colour-far-linear", K_LINEAR, NFAR);
+    run_far("colour-far-radial", K_RADIAL, NFAR);
 
+    /* far spaces, appended to both descriptions below */
+#define FAR_TXT " Far spaces: 4 short-period linear and 4 radial geometries drawn from origins x in {128,512,2048,8192,12000,-8192} (|t| up to 48000 periods), " \
+                "transforms none/scale 2, 4 repeats, the quarter-grid lists plus 4 lists with stops 1/16..1/256 apart"
     vf_bounds = th ? "stop lists: all 1..4-stop lists with non-decreasing positions from {0,1/4,1/2,1/2,3/4,1} x 4 colours per stop; linear 12 ordered "
                      "point pairs + 4 extra (vertical, half-pixel span, long span, off-grid); radial 17 circle pairs (a<0, a>0, a=0, equal radii, zero "
                      "radii, identical circles); conical 3 centres x 5 angles; 4 repeat modes; 8 transforms (none, scale 2, translate 1/2, rotate 90, "
                      "2 projective, w=2, shear); 2 origins; 2 pipelines.  Safety: 14 unsorted/out-of-range/extreme stop lists x degenerate geometries "
-                     "x 9 transforms (5 singular/overflowing) x 4 repeats x 2 origins; n_stops <= 0"
+                     "x 9 transforms (5 singular/overflowing) x 4 repeats x 2 origins; n_stops <= 0." FAR_TXT " (grid lists with <= 3 stops)"
                    : "stop lists: all 1..3-stop lists with non-decreasing positions from {0,1/4,1/2,1/2,3/4,1} x 4 colours per stop; linear 12 ordered "
                      "point pairs; radial 12 circle pairs; conical 3 centres x 4 angles; 4 repeat modes; 4 transforms (none, scale 2, rotate 90, "
-                     "projective); origin (0,0); 2 pipelines.  Safety spaces as in the thorough tier";
+                     "projective); origin (0,0); 2 pipelines.  Safety spaces as in the thorough tier." FAR_TXT " (grid lists with <= 2 stops)";
     return vf_finish();
 }
